@@ -14,7 +14,7 @@ def t(i, off=0):
 
 
 def context_sets(thorough):
-    full = {'a': ['gross', 'spike', 'roc', 'clim', 'loc'], 'b': ['flat', 'valid', 'dens', 'speed', 'press']}
+    full = {'a': ['gross', 'spike', 'roc', 'clim', 'loc', 'valid_incl'], 'b': ['flat', 'valid', 'dens', 'speed', 'press']}
     lite = {'a': ['gross', 'spike', 'roc'], 'b': ['flat']}
     sets = [
         ('no-window', [dict(window=(None, None), tests=full)]),
@@ -26,6 +26,8 @@ def context_sets(thorough):
         ('covering-window', [dict(window=(t(0), t(9)), tests=lite)]),
         ('two-contexts', [dict(window=(t(0), t(2)), tests=lite), dict(window=(t(2), t(5)), tests={'a': ['gross', 'roc'], 'b': ['flat', 'valid']})]),
         ('one-row-window', [dict(window=(t(4), None), tests=lite)]),
+        # starting after ending: no instant satisfies starting <= t < ending (bounds are not a span to be sorted)
+        ('reversed-window', [dict(window=(t(1), t(3)), tests={'a': ['gross'], 'b': ['valid']}), dict(window=(t(4), t(1)), tests={'a': ['gross', 'spike'], 'b': ['flat']})]),
         ('whole-record-then-window', [dict(window=(None, None), tests={'a': ['gross', 'spike'], 'b': ['valid']}),
                                       dict(window=(t(1), t(3)), tests={'a': ['gross', 'spike'], 'b': ['valid']})]),
     ]
@@ -223,6 +225,23 @@ def run(ck):
         expected = expected_direct(ck.runner, full, cs)
         for fe in ('numpy', 'netcdf', 'pandas', 'xarray'):
             compare_run(ck, fe, f'explicit-null-bound/{name}', full, cs, run_frontend(ck.runner, fe, full, src), expected)
+    # rows without a position (both coordinates missing) or without a depth: the tests see exactly those gaps (nothing is carried forward)
+    gaps = Table(5, missing={'a': {2}, 'lat': {1, 3}, 'lon': {3}, 'z': {2}})
+    for window in ((None, None), (t(1), t(5))):
+        cs = [dict(window=window, tests={'a': ['loc', 'speed', 'gross', 'clim'], 'b': ['dens']})]
+        src = make_config_source(cs)
+        expected = expected_direct(ck.runner, gaps, cs)
+        for fe in ('numpy', 'netcdf', 'pandas', 'xarray'):
+            compare_run(ck, fe, f'gaps-in-the-axes{"" if window == (None, None) else "/window"}', gaps, cs, run_frontend(ck.runner, fe, gaps, src), expected)
+    # a column that is an axis *and* a tested stream (range-check the depths themselves, next to tests that use them as zinp)
+    shared = Table(5, missing={'a': {2}})
+    shared.axis_streams = True
+    for window in ((None, None), (t(1), t(4))):
+        cs = [dict(window=window, tests={'z': ['gross', 'press'], 'a': ['gross', 'dens', 'clim'], 'lat': ['valid']})]
+        src = make_config_source(cs)
+        expected = expected_direct(ck.runner, shared, cs)
+        for fe in ('netcdf', 'pandas', 'xarray'):
+            compare_run(ck, fe, f'axis-column-also-a-stream{"" if window == (None, None) else "/window"}', shared, cs, run_frontend(ck.runner, fe, shared, src), expected)
     # no time axis at all: windows cannot be applied (the streams warn and skip the subset), time-dependent tests drop out
     notime = Table(5, missing={'a': {2}}, with_axes=())
     for cs in ([dict(window=(None, None), tests={'a': ['gross', 'spike', 'roc'], 'b': ['valid']})],):
